@@ -13,6 +13,7 @@ Semantics mirrored from the gloo backend (cross-checked by gloo_crosscheck.py):
     ranks; non-members receive a NON_MEMBER sentinel for which get_world_size is
     -1 and every collective warns and returns None (as torch does);
   * async ops return a Work whose get_future() resolves to [tensor].
+  * torch.save / torch.load / os.replace / os.rename are scheduling points (file-system calls block).
 Everything is recorded in World.trace (per rank) for the trace properties.
 """
 from __future__ import annotations
@@ -456,6 +457,19 @@ def _patched_wait(self):
     return _ORIG['future_wait'](self)
 
 
+def _mk_fs(orig):
+    def call(*a, **k):
+        w = _w()
+        if w is not None:
+            w.yield_point()
+        try:
+            return orig(*a, **k)
+        finally:
+            if w is not None:
+                w.yield_point()
+    return call
+
+
 @contextmanager
 def patched():
     global _patch_depth
@@ -474,6 +488,12 @@ def patched():
             _ORIG['ProcessGroup'] = dist.ProcessGroup
             dist.ProcessGroup = SimGroup       # `isinstance(g, torch.distributed.ProcessGroup)` in kfac.gpt_neox
             torch._C.Future.wait = _patched_wait
+            # file-system calls block in reality: they are scheduling points too (before and after the call), so that
+            # two ranks writing / renaming in one directory interleave
+            import os as _os
+            for mod_, nm in ((torch, 'save'), (torch, 'load'), (_os, 'replace'), (_os, 'rename')):
+                _ORIG['fs_' + nm] = getattr(mod_, nm)
+                setattr(mod_, nm, _mk_fs(_ORIG['fs_' + nm]))
         _patch_depth += 1
     try:
         yield
@@ -486,6 +506,9 @@ def patched():
                     setattr(dist, nm, _ORIG[nm])
                 dist.ProcessGroup = _ORIG['ProcessGroup']
                 torch._C.Future.wait = _ORIG['future_wait']
+                import os as _os
+                for mod_, nm in ((torch, 'save'), (torch, 'load'), (_os, 'replace'), (_os, 'rename')):
+                    setattr(mod_, nm, _ORIG['fs_' + nm])
 
 
 def run_world(n, fn, *args, seed=0, stickiness=0.5):
